@@ -566,6 +566,10 @@ func runGrow(gc growCase) (string, string) {
 			pl.FireChannelActive()
 		case gc.Kind == probes.KRead:
 			pl.FireChannelRead(msg)
+		case gc.Kind == probes.KException:
+			pl.FireChannelException(errBoom)
+		case gc.Kind == probes.KInactive:
+			pl.FireChannelInactive(errBoom)
 		}
 		var got []int
 		for _, v := range rec.Visits {
@@ -630,7 +634,7 @@ func growth(alphabet []int, maxLen int) *explore.Scenario {
 					kind  int
 					entry string
 				}
-				kes := []ke{{probes.KWrite, "pipeline"}, {probes.KWrite, "channel"}, {probes.KWrite, "tailctx"}, {probes.KEvent, "pipeline"}, {probes.KEvent, "channel"}, {probes.KEvent, "headctx"}, {probes.KActive, "pipeline"}, {probes.KRead, "pipeline"}}
+				kes := []ke{{probes.KWrite, "pipeline"}, {probes.KWrite, "channel"}, {probes.KWrite, "tailctx"}, {probes.KEvent, "pipeline"}, {probes.KEvent, "channel"}, {probes.KEvent, "headctx"}, {probes.KActive, "pipeline"}, {probes.KRead, "pipeline"}, {probes.KException, "pipeline"}, {probes.KInactive, "pipeline"}}
 				for si, sh := range shapes {
 					if !c.Mine() {
 						continue
